@@ -3,11 +3,13 @@ C17 - delimited list / key=value / INI text decodes to what was encoded.
 
 Lean: lean/N0Verif/Model/Esc.lean, Proofs/Esc.lean, Drv/Esc.lean; Model/Ini.lean, Proofs/Ini.lean, Drv/Ini.lean; Props/C17.lean
 B streams: esc.split (random + exhaustive small scope), esc.spec (the Python transcription of the
-  specification against Lean's `splitSpec`), esc.dlist, esc.kv, esc.ddict, esc.ser, esc.unesc, esc.rt;
+  specification against Lean's `splitSpec`), esc.dlist, esc.kv, esc.ddict, esc.ddu (deserialize_dict then unescape),
+  esc.ser, esc.unesc, esc.rt, esc.rtf (round trip under generate_empty / generate_none with a default value);
   ini.value (default_parse_value), ini.isnum (isnumber, every boundary of str.isnumeric), ini.parse (parse_ini on lines
   with comments, blanks, quotes, numbers, '+=' keys), ini.rt (load_ini(save_file(m)) through a real file), ini.read (load_lines)
 C evaluators: split = one-pass specification, no-escape = plain split, totality, independence of
-  neighbours, join round trip, key=value (first tag splits), flat mapping round trip, reserved characters protected, nested mappings serialise, default value,
+  neighbours, join round trip, key=value (first tag splits), flat mapping round trip (also under generate_empty / generate_none off and on with default values None, '', numbers, bools: dict_roundtrip/flags, /empty-default),
+  default value (then unescape), reserved characters protected, nested mappings serialise, default value,
   INI round trip (load_ini(save_file(m)) against a reference written from the statement), ini_lines (parse_ini against the
   reference), ini_concat ('K=a','K+=b' / unseen key / blank before '+='), ini_comments (comment and blank lines change nothing)
 """
@@ -23,7 +25,7 @@ MANIFEST = dict(
     technique="Lean 4 theorems over a hand-written model (fuelled while/for/else/pop loop, with a fuel-adequacy theorem) "
               "+ differential correspondence with the implementation + the statement executed on the implementation",
     text="Lean theorems, unbounded in text length, number of items and item contents, for the code with fix patches "
-         "C17-a..g applied: C17_total (split_with_escape returns for every text, every non-empty delimiter, every maxsplit, "
+         "C17-a..h applied: C17_total (split_with_escape returns for every text, every non-empty delimiter, every maxsplit, "
          "escape character None or one character, trim on/off; the model's fuel is adequate: C17_fuel_adequate); "
          "C17_no_escape_is_split (escape character absent from the text => the result is str.split(delimiter, maxsplit), "
          "the empty delimiter's ValueError included); C17_odd_run_stays (when the delimiter does not end with the escape "
@@ -36,7 +38,11 @@ MANIFEST = dict(
          "C17_dict_roundtrip (flat mapping with unique keys free of separator characters, string values over every character - "
          "inside and outside ASCII since fix C17-e - and the whole reserved alphabet; separators non-empty, containing no "
          "backslash, 'x' or lower-case hex digit, sharing no character, and no 'u'/'U' when one of their characters is above U+00FF: "
-         "unescape(deserialize_dict(serialize_dict(m))) == m); C17_nested_serialises (serialize_dict raises nothing on any "
+         "unescape(deserialize_dict(serialize_dict(m))) == m); C17_dict_roundtrip_flags (the same mappings with values '' and None, serialised with generate_empty / generate_none "
+         "on or off, deserialised with any default value and unescaped: an entry written with the equal tag comes back as its text (None as ''), an entry written as a bare key "
+         "- it must be non-empty - comes back with the unescaped default value, None included, and nothing raises: fix C17-h, before it None.copy() raised AttributeError); "
+         "C17_dict_roundtrip_empty_default (with default_value='' a mapping of texts comes back the same whatever the flags are); C17_unescape_none_kept (unescape of a mapping "
+         "fails only because one of its string values is undecodable; None values are kept); C17_default_unescape_witness; C17_nested_serialises (serialize_dict raises nothing on any "
          "tree of mappings/lists/scalars in which no list directly contains None); C17_default_value (an item without the "
          "equal tag yields (item, default_value)); C17_key_value (the first equal tag splits); C17_values_protected (the text "
          "written for a value contains no delimiter/equal-tag character, brace, bracket or quote). "
@@ -57,7 +63,8 @@ MANIFEST = dict(
     note="unescape is modelled as latin-1/backslashreplace encoding followed by CPython's unicode_escape decoder (validated by stream esc.unesc); "
          "upper()/lower() only for ASCII (otherwise unsupported); str.isnumeric() above U+007F is a table (Unicode 15.0) validated at every boundary "
          "by stream ini.isnum; floats are opaque lexemes. No open finding; fixes proposed in this round: C17-e (non-ASCII text through unescape), "
-         "C17-g ('KEY +=VALUE' with a blank before '+=').",
+         "C17-g ('KEY +=VALUE' with a blank before '+='); fourth wave: C17-h (unescape keeps None / numbers: a key that got the default value no longer makes unescape raise). "
+         "Default values that are numbers / bools are outside the model (Option Str) and covered by the evaluators default and dict_roundtrip/flags only.",
     design_ref="5/C17",
 )
 
@@ -313,9 +320,39 @@ def rt_impl(c):
     r = core.call(lambda: un(dd(sd(c["m"], c["d"], c["eq"]), c["d"], equal_tag=c["eq"])))
     if r[0] != "ok":
         return "err " + r[1]
-    if any(any(0xD800 <= ord(ch) <= 0xDFFF for ch in v) for v in r[1].values()):
+    if any(any(0xD800 <= ord(ch) <= 0xDFFF for ch in v) for v in r[1].values() if isinstance(v, str)):
         return "unsupported"
-    return pairs(r[1], optional=False)
+    return pairs(r[1])
+
+
+def rtf_line(c):
+    return "esc.rtf %s %s %s %s %s %s" % (enc_str(c["d"]), enc_str(c["eq"]), tf(c["ge"]), tf(c["gn"]), opt(c["dv"]), enc_val(c["m"]))
+
+
+def rtf_impl(c):
+    """serialize_dict under generate_empty / generate_none, deserialize_dict with a default value, unescape"""
+    _, _, _, dd, sd, un = impl()
+    r = core.call(lambda: un(dd(sd(c["m"], c["d"], c["eq"], c["ge"], c["gn"]), c["d"], equal_tag=c["eq"], default_value=c["dv"])))
+    if r[0] != "ok":
+        return "err " + r[1]
+    if any(any(0xD800 <= ord(ch) <= 0xDFFF for ch in v) for v in r[1].values() if isinstance(v, str)):
+        return "unsupported"
+    return pairs(r[1])
+
+
+def ddu_line(c):
+    return "esc.ddu %s %s %s %s %s %s" % (enc_str(c["s"]), enc_str(c["d"]), enc_str(c["eq"]), tf(c["pe"]), opt(c["dk"]), opt(c["dv"]))
+
+
+def ddu_impl(c):
+    """unescape(deserialize_dict(...)): keys without the equal tag hold the default value (None unless given)"""
+    dd, un = impl()[3], impl()[5]
+    r = core.call(lambda: un(dd(c["s"], c["d"], parse_empty=c["pe"], equal_tag=c["eq"], default_key=c["dk"], default_value=c["dv"])))
+    if r[0] != "ok":
+        return "err " + r[1]
+    if any(any(0xD800 <= ord(ch) <= 0xDFFF for ch in v) for v in r[1].values() if isinstance(v, str)):
+        return "unsupported"
+    return pairs(r[1])
 
 
 # ---------------------------------------------------------------------------
@@ -370,14 +407,34 @@ def check_join(c):
     return None
 
 
+def writes_eq(v, ge, gn):
+    """does serialize_dict write the equal tag after the key (the statement's 'k=v'; otherwise the bare key)"""
+    if v is None:
+        return bool(gn or ge)
+    return bool(v) or bool(ge)
+
+
 def check_dict_roundtrip(c):
+    """unescape(deserialize_dict(serialize_dict(m))) == m (same keys, same order).  With the optional fields ge / gn / dv
+    (generate_empty, generate_none, default_value; values may then be None): an entry written with the equal tag comes
+    back as its text (None as ''), an entry written as a bare key comes back with the default value - whatever it is
+    (None, a number, a bool, a text) - and nothing raises (C17_dict_roundtrip_flags, fix C17-h)"""
     _, _, _, dd, sd, un = impl()
     m, d, eq = c["m"], c["d"], c["eq"]
-    r = core.call(lambda: un(dd(sd(m, d, eq), d, equal_tag=eq)))
+    if "ge" not in c:
+        r = core.call(lambda: un(dd(sd(m, d, eq), d, equal_tag=eq)))
+        if r[0] != "ok":
+            return {"raised": r[1], "text": core.call(sd, m, d, eq)[1]}
+        if r[1] != m or list(r[1]) != list(m):
+            return {"got": r[1], "want": m, "text": sd(m, d, eq)}
+        return None
+    ge, gn, dv = c["ge"], c["gn"], c["dv"]
+    want = {k: ((v or "") if writes_eq(v, ge, gn) else dv) for k, v in m.items()}
+    r = core.call(lambda: un(dd(sd(m, d, eq, ge, gn), d, equal_tag=eq, default_value=dv)))
     if r[0] != "ok":
-        return {"raised": r[1], "text": core.call(sd, m, d, eq)[1]}
-    if r[1] != m or list(r[1]) != list(m):
-        return {"got": r[1], "want": m, "text": sd(m, d, eq)}
+        return {"raised": r[1], "text": core.call(sd, m, d, eq, ge, gn)[1], "want": want}
+    if r[1] != want or list(r[1]) != list(want) or any(type(r[1][k]) is not type(want[k]) for k in want):
+        return {"got": r[1], "want": want, "text": sd(m, d, eq, ge, gn)}
     return None
 
 
@@ -419,6 +476,12 @@ def check_default(c):
     want = {c["item"]: c["dv"], "q": "1"} if c["item"] else {"q": "1"}
     if r != ("ok", want):
         return {"text": text, "got": list(r), "want": want}
+    # the two clauses of the statement compose: the mapping just deserialised goes through unescape (fix C17-h); the
+    # default value - None, a number, a bool, or a text without escapes - is still there afterwards
+    un = impl()[5]
+    u = core.call(un, r[1])
+    if u[0] != "ok" or u[1] != want or list(u[1]) != list(want) or any(type(u[1][k]) is not type(want[k]) for k in want):
+        return {"text": text, "unescape": list(u), "want": want}
     return None
 
 
@@ -839,6 +902,11 @@ def _dict_valid(c):
         return False
     if not safe_seps(d, eq):
         return False
+    if "ge" in c:
+        dv = c.get("dv")
+        if not (isinstance(c["ge"], bool) and isinstance(c.get("gn"), bool) and (dv is None or isinstance(dv, (int, float)) or (isinstance(dv, str) and "\\" not in dv))):
+            return False
+        return all((v is None or isinstance(v, str)) and all(ch not in d and ch not in eq for ch in k) and (k or writes_eq(v, c["ge"], c["gn"])) for k, v in m.items())
     return all(isinstance(v, str) and all(ch not in d and ch not in eq for ch in k) for k, v in m.items())
 
 
@@ -897,7 +965,7 @@ def replay(rp):
 
 IMPLS = {"ini.value": ini_value_impl, "ini.isnum": ini_isnum_impl, "ini.parse": ini_parse_impl, "ini.rt": ini_rt_impl, "ini.read": ini_read_impl,
          "esc.split": split_impl, "esc.spec": spec_py, "esc.dlist": dlist_impl, "esc.kv": kv_impl, "esc.ddict": ddict_impl,
-         "esc.ser": ser_impl, "esc.unesc": unesc_impl, "esc.rt": rt_impl}
+         "esc.ser": ser_impl, "esc.unesc": unesc_impl, "esc.rt": rt_impl, "esc.rtf": rtf_impl, "esc.ddu": ddu_impl}
 
 
 def witness_fails(finding):
@@ -995,12 +1063,14 @@ def run(ctx):
         dds.append({"s": d.join(items), "d": d if rng.random() < 0.95 else "", "eq": eq, "pe": rng.random() < 0.4, "dk": dk, "dv": dv})
     ctx.correspond("esc.kv", kvs, kv_line, kv_impl)
     ctx.correspond("esc.ddict", dds, ddict_line, ddict_impl)
+    ctx.correspond("esc.ddu", dds + [{"s": "a;b=1", "d": ";", "eq": "=", "pe": False, "dk": None, "dv": None}], ddu_line, ddu_impl,
+                   nontrivial=lambda c: c["eq"] != "" and any(c["eq"] not in it for it in c["s"].split(c["d"] or ";")))
     dfl = []
     for _ in range(n // 4):
         eq = rng.choice(["=", ":", "=>"])
         d = rng.choice([";", ",", "|"])
         item = "".join(rng.choice(["a", "k", " ", "\\", "x"]) for _ in range(rng.choice([0, 1, 2, 4])))
-        dfl.append({"item": item, "eq": eq, "d": d, "dv": rng.choice([None, "", "DV", "0"])})
+        dfl.append({"item": item, "eq": eq, "d": d, "dv": rng.choice([None, None, "", "DV", "0", 5, 0, False, 1.5])})
     ctx.evaluate("default", dfl, check_default)
     kvc = []
     for _ in range(n // 4):
@@ -1056,6 +1126,31 @@ def run(ctx):
         for ch in list(d) + list(eq) + ["\u00e9", "\u20ac", "\U0001f600", "\\", "\u00ff", "\u0100"]:
             dr.append({"m": {"k": ch, "j": "a" + ch + ch + "\\" + ch}, "d": d, "eq": eq})
     ctx.correspond("esc.rt/wide", [c for c in dr if non_ascii_case([c["d"], c["eq"]])], rt_line, rt_impl)
+    # flags: generate_empty / generate_none on and off, values '' and None, a default value (B: None or a text; C: also numbers / bools)
+    rng = ctx.rng("rtf")
+    rtf, drf = [], []
+    for c in rts[: max(200, len(rts) // 2)]:
+        m = dict(c["m"])
+        for k in list(m):
+            x = rng.random()
+            if x < 0.25:
+                m[k] = ""
+            elif x < 0.45:
+                m[k] = None
+        ge, gn = rng.random() < 0.5, rng.random() < 0.5
+        rtf.append({"m": m, "d": c["d"], "eq": c["eq"], "ge": ge, "gn": gn, "dv": rng.choice([None, None, "", "DV", "\\x41"])})
+        drf.append({"m": m, "d": c["d"], "eq": c["eq"], "ge": ge, "gn": gn, "dv": rng.choice([None, None, "", "DV", 5, 0, False, 1.5])})
+    for ge in (False, True):
+        for gn in (False, True):
+            for dv in (None, "", 5):
+                drf.append({"m": {"a": "", "b": "x", "n": None}, "d": ";", "eq": "=", "ge": ge, "gn": gn, "dv": dv})
+    rtf.append({"m": {"a": "", "b": "x"}, "d": ";", "eq": "=", "ge": False, "gn": True, "dv": None})
+    ctx.correspond("esc.rtf", rtf, rtf_line, rtf_impl, nontrivial=lambda c: any(not writes_eq(v, c["ge"], c["gn"]) for v in c["m"].values()))
+    drf = [c for c in drf if _dict_valid(c)]
+    ctx.evaluate("dict_roundtrip/flags", drf, check_dict_roundtrip, nontrivial=lambda c: any(not writes_eq(v, c["ge"], c["gn"]) for v in c["m"].values()))
+    # with default_value='' a mapping of texts comes back the same whatever the flags are (C17_dict_roundtrip_empty_default)
+    same = [dict(c, dv="") for c in drf if all(isinstance(v, str) for v in c["m"].values())]
+    ctx.evaluate("dict_roundtrip/empty-default", same, check_dict_roundtrip, nontrivial=lambda c: any(v == "" for v in c["m"].values()) and not c["ge"])
     ctx.evaluate("dict_roundtrip", dr, check_dict_roundtrip, nontrivial=lambda c: len(c["m"]) > 0)
     ctx.evaluate("protected", dr, check_protected, nontrivial=lambda c: len(c["m"]) > 0)
     # ---- C: nested mappings serialise
